@@ -168,7 +168,8 @@ class Impl:
             extra = {}
             if e[2] is not None:
                 extra['time_interval'] = (zval(e[2][1][1]), zval(e[2][1][2]))
-            extra['time_interval_length'] = zval(e[3])
+            if e[3] is not None:
+                extra['time_interval_length'] = zval(e[3][1])
             if h == 'COGroup':
                 return ps.OrderedTaskGroup(list_of_tasks=TL(e[1]), kind=PK[e[4][0]], **extra, **kw)
             return ps.UnorderedTaskGroup(list_of_tasks=TL(e[1]), **extra, **kw)
